@@ -541,17 +541,20 @@ Proof.
   constructor; [exact H1 | apply IH; exact H2].
 Qed.
 
-Lemma valid_good : forall p, valid (CPath p) -> known (CPath p) = 0 ->
-  Forall good p /\ (length p <= 32)%nat /\ Forall (fun e => elem_size e <= MAX_TOKEN_LEN) p.
+Lemma valid_good : forall p, valid (CPath p) -> known (CPath p) = 0 -> Forall good p.
 Proof.
-  intros p [Hwf Hlim] Hk. cbn [known] in Hk.
+  intros p Hwf Hk. cbn [known valid] in *.
   destruct (existsb unprintable p) eqn:Hu; [discriminate|].
   destruct (existsb aliasing p) eqn:Ha; [discriminate|].
   apply existsb_false_Forall in Hu, Ha.
-  unfold over_limit in Hlim. apply orb_false_iff in Hlim as [Hl1 Hl2].
-  apply existsb_false_Forall in Hl2.
-  split; [|split].
-  - rewrite Forall_forall in *. intros e He. split; [|split]; auto.
+  rewrite Forall_forall in *. intros e He. split; [|split]; auto.
+Qed.
+
+Lemma within_limit : forall p, over_limit p = false ->
+  (length p <= 32)%nat /\ Forall (fun e => elem_size e <= MAX_TOKEN_LEN) p.
+Proof.
+  intros p Hlim. unfold over_limit in Hlim. apply orb_false_iff in Hlim as [Hl1 Hl2].
+  apply existsb_false_Forall in Hl2. split.
   - unfold MAX_ELEMENTS in Hl1. lia.
   - rewrite Forall_forall in *. intros e He. specialize (Hl2 e He). cbv beta in Hl2. lia.
 Qed.
@@ -563,10 +566,11 @@ Proof.
   destruct (print_elem_shape e He) as [c [body [Hpr _]]]. rewrite Hpr, (IH Hp). reflexivity.
 Qed.
 
-Theorem roundtrip : forall p, valid (CPath p) -> known (CPath p) = 0 ->
+Theorem roundtrip : forall p, valid (CPath p) -> known (CPath p) = 0 -> over_limit p = false ->
   exists s, print_path p = Ok s /\ parse s = Ok p.
 Proof.
-  intros p Hv Hk. destruct (valid_good p Hv Hk) as [Hg [Hlen Hsz]].
+  intros p Hv Hk Hlim. pose proof (valid_good p Hv Hk) as Hg.
+  destruct (within_limit p Hlim) as [Hlen Hsz].
   exists (flat_map text p). split; [apply print_path_text; exact Hg|].
   unfold parse.
   assert (H := tok_path parse_elem text p [] None).
@@ -692,14 +696,142 @@ Qed.
 Theorem parse_total : forall s, parse s <> Panic.
 Proof. intro s. unfold parse. apply tok_loop_total. exact parse_elem_total. Qed.
 
+(* ---- beyond the limits the parser rejects --------------------------------------------------------- *)
+Section Over.
+  Variable pe : str -> outcome elem.
+
+  Lemma tok_inert_overflow : forall body, inert body -> forall cs els t,
+    ulen t <= MAX_TOKEN_LEN -> MAX_TOKEN_LEN < ulen (t ++ body) ->
+    tok_loop pe (body ++ cs) els t false = Err.
+  Proof.
+    induction 1 as [|c r Hc Hs Hr IH|x r Hr IH]; intros cs els t Ht Hlen.
+    - rewrite app_nil_r in Hlen. lia.
+    - cbn [app tok_loop]. destruct (c =? 38) eqn:E; [lia|]. rewrite Hs.
+      destruct (MAX_TOKEN_LEN <? ulen (t ++ [c])) eqn:E2; [reflexivity|].
+      apply IH; [lia|]. rewrite <- app_assoc. exact Hlen.
+    - cbn [app tok_loop]. change (38 =? 38) with true. cbv iota.
+      destruct (MAX_TOKEN_LEN <? ulen (t ++ [38])) eqn:E1; [reflexivity|].
+      destruct (MAX_TOKEN_LEN <? ulen ((t ++ [38]) ++ [x])) eqn:E2; [reflexivity|].
+      apply IH; [lia|]. rewrite <- !app_assoc. exact Hlen.
+  Qed.
+
+  (* 32 elements collected and a non-empty token: the next separator (or the end) rejects *)
+  Lemma tok_full : forall cs els t,
+    t <> [] -> Z.of_nat (length els) = MAX_ELEMENTS ->
+    match cs with [] => True | c :: _ => is_sep c = true end ->
+    tok_loop pe cs els t false = Err.
+  Proof.
+    intros cs els t Ht Hn Hc.
+    assert (Hf : finish pe els t = Err).
+    { unfold finish. destruct t; [contradiction|]. cbn [is_nil]. rewrite Hn, Z.eqb_refl. reflexivity. }
+    destruct cs as [|c cs]; cbn [tok_loop]; [exact Hf|].
+    rewrite (sep_not_amp c Hc), Hc. destruct t; [contradiction|]. cbn [is_nil].
+    rewrite Hn, Z.eqb_refl. exact Hf.
+  Qed.
+
+  Variable text : elem -> str.
+  Variable size : elem -> Z.
+  (* every element text starts with a separator followed by inert text, and has the stated size;
+     those within the limit are parsed back by [pe] *)
+  Definition shaped (e : elem) : Prop :=
+    (exists c body, text e = c :: body /\ is_sep c = true /\ inert body /\ ulen (c :: body) = size e) /\
+    (size e <= MAX_TOKEN_LEN -> pe (text e) = Ok e).
+
+  Lemma flat_map_text_head : forall p, Forall shaped p ->
+    match flat_map text p with [] => True | c :: _ => is_sep c = true end.
+  Proof.
+    intros [|e p] H; [exact I|]. inversion H as [|? ? [[c [body [Hw [Hs _]]]] _] _]; subst.
+    cbn [flat_map]. rewrite Hw. exact Hs.
+  Qed.
+
+  Lemma tok_over : forall p els pend,
+    Forall shaped p ->
+    match pend with Some e => shaped e /\ size e <= MAX_TOKEN_LEN | None => els = [] end ->
+    (length els <= 32)%nat ->
+    ((32 < length els + length (pend_el pend) + length p)%nat \/
+     Exists (fun e => MAX_TOKEN_LEN < size e) p) ->
+    tok_loop pe (flat_map text p) els (pend_tok text pend) false = Err.
+  Proof.
+    induction p as [|e p IH]; intros els pend Hp Hpend Hle Hover.
+    - destruct Hover as [Hover|Hover]; [|inversion Hover].
+      destruct pend as [e0|]; cbn [pend_el pend_tok length] in *; [|subst; cbn in Hover; lia].
+      destruct Hpend as [[[c [body [Hw _]]] _] _].
+      apply tok_full; [rewrite Hw; discriminate | unfold MAX_ELEMENTS; lia | exact I].
+    - destruct (Nat.eq_dec (length els) 32) as [E32|E32].
+      + destruct pend as [e0|]; cbn [pend_tok]; [|subst; cbn in E32; lia].
+        destruct Hpend as [[[c [body [Hw _]]] _] _].
+        apply tok_full; [rewrite Hw; discriminate | unfold MAX_ELEMENTS; lia |].
+        apply flat_map_text_head. exact Hp.
+      + inversion Hp as [|? ? He Hp']; subst. cbn [flat_map].
+        destruct He as [[c [body [Hw [Hs [Hi Hl]]]]] Hpe].
+        (* the state after the separator of e *)
+        assert (Hstep : tok_loop pe ((c :: body) ++ flat_map text p) els (pend_tok text pend) false
+                        = tok_loop pe (body ++ flat_map text p) (els ++ pend_el pend) [c] false).
+        { cbn [app tok_loop]. rewrite (sep_not_amp c Hs), Hs.
+          assert (H1 : (MAX_TOKEN_LEN <? ulen [c]) = false).
+          { cbn [ulen fold_right]. pose proof (utf8_len_pos c). unfold MAX_TOKEN_LEN. lia. }
+          destruct pend as [e0|]; cbn [pend_tok pend_el].
+          - destruct Hpend as [[[c0 [body0 [Hw0 _]]] Hpe0] Hsz0]. rewrite Hw0. cbn [is_nil]. rewrite <- Hw0.
+            destruct (Z.of_nat (length els) =? MAX_ELEMENTS) eqn:E; [unfold MAX_ELEMENTS in E; lia|].
+            rewrite (Hpe0 Hsz0), H1. reflexivity.
+          - cbn [is_nil]. rewrite H1, app_nil_r. reflexivity. }
+        rewrite Hw, Hstep.
+        assert (Hlen' : (length (els ++ pend_el pend) <= 32)%nat).
+        { rewrite app_length. destruct pend; cbn [pend_el length]; lia. }
+        destruct (Z_le_gt_dec (size e) MAX_TOKEN_LEN) as [Hfit|Hbig].
+        * (* e fits: go on with e pending *)
+          rewrite (tok_inert pe body Hi (flat_map text p) (els ++ pend_el pend) [c])
+            by (cbn [app]; rewrite Hl; exact Hfit).
+          cbn [app]. rewrite <- Hw.
+          apply (IH (els ++ pend_el pend) (Some e)); [exact Hp' | | exact Hlen' |].
+          -- split; [|exact Hfit]. split; [exists c, body; repeat split; assumption | exact Hpe].
+          -- destruct Hover as [Hover|Hover].
+             ++ left. rewrite app_length. cbn [pend_el length] in *. lia.
+             ++ inversion Hover as [? ? Hb|? ? Hb]; subst; [lia | right; exact Hb].
+        * (* e is too long *)
+          apply tok_inert_overflow; [exact Hi | cbn [ulen fold_right]; pose proof (utf8_len_pos c); unfold MAX_TOKEN_LEN; lia |].
+          cbn [app]. rewrite Hl. lia.
+  Qed.
+End Over.
+
+Lemma existsb_Exists : forall (A : Type) (f : A -> bool) l, existsb f l = true -> Exists (fun x => f x = true) l.
+Proof.
+  induction l as [|x l IH]; intro H; cbn in H; [discriminate|].
+  destruct (f x) eqn:E; [left; exact E | right; apply IH; exact H].
+Qed.
+
+(* a well-formed path outside the known classes that exceeds a limit of the parser (more than 32
+   elements, or an element of more than 256 bytes of text) is printed, and its text is rejected *)
+Theorem over_limit_rejected : forall p, valid (CPath p) -> known (CPath p) = 0 -> over_limit p = true ->
+  exists s, print_path p = Ok s /\ parse s = Err.
+Proof.
+  intros p Hv Hk Hlim. pose proof (valid_good p Hv Hk) as Hg.
+  exists (flat_map text p). split; [apply print_path_text; exact Hg|].
+  unfold parse.
+  assert (H := tok_over parse_elem text elem_size p [] None).
+  cbn [pend_tok pend_el app length] in H. apply H; [|reflexivity|lia|].
+  - rewrite Forall_forall in *. intros e He.
+    destruct (print_elem_shape e (Hg e He)) as [c [body [Hpr Hrest]]].
+    unfold shaped, text. rewrite Hpr. split; [exists c, body; split; [reflexivity | exact Hrest]|].
+    intros _. apply parse_elem_print; [apply Hg; exact He | exact Hpr].
+  - unfold over_limit in Hlim. apply orb_true_iff in Hlim as [Hl|Hl].
+    + left. unfold MAX_ELEMENTS in Hl. lia.
+    + right. apply existsb_Exists in Hl. eapply Exists_impl; [|exact Hl]. cbv beta. intros e He. lia.
+Qed.
+
 (* ---- the oracle holds on the model's output ------------------------------------------------------ *)
 Theorem oracle_holds : forall c, valid c -> known c = 0 -> oracle c (run c) = true.
 Proof.
   intros [p|s] Hv Hk.
-  - destruct (roundtrip p Hv Hk) as [s [Hpr Hpa]].
-    cbn [run oracle]. rewrite Hpr, Hpa. cbn [enc_result].
-    rewrite Nat2Z.id, skipn_length_app, str_eqb_refl. cbn [orb]. rewrite andb_true_r.
-    rewrite app_length. lia.
+  - destruct (over_limit p) eqn:Hlim.
+    + destruct (over_limit_rejected p Hv Hk Hlim) as [s [Hpr Hpa]].
+      cbn [run oracle]. rewrite Hpr, Hpa, Hlim. cbn [enc_result].
+      rewrite Nat2Z.id, skipn_length_app. cbn [andb]. rewrite orb_true_r, andb_true_r.
+      rewrite app_length. lia.
+    + destruct (roundtrip p Hv Hk Hlim) as [s [Hpr Hpa]].
+      cbn [run oracle]. rewrite Hpr, Hpa. cbn [enc_result].
+      rewrite Nat2Z.id, skipn_length_app, str_eqb_refl. cbn [orb]. rewrite andb_true_r.
+      rewrite app_length. lia.
   - cbn [run oracle]. pose proof (parse_total s) as Ht.
     destruct (parse s) as [p| |]; [reflexivity | reflexivity | contradiction].
 Qed.
@@ -769,12 +901,12 @@ Proof. exists w_known2. split; vm_compute; reflexivity. Qed.
 (* the four repaired defects, each on the pinned code's model: a valid path outside the known
    classes whose printed text the old parser does not read back as the path *)
 Definition legacy_fails (p : list elem) : Prop :=
-  valid (CPath p) /\ known (CPath p) = 0 /\
+  valid (CPath p) /\ known (CPath p) = 0 /\ over_limit p = false /\
   exists s, print_path p = Ok s /\ Legacy.parse s <> Ok p /\ parse s = Ok p.
 
 Ltac legacy_witness :=
-  split; [split; [repeat constructor; cbn; try lia; try discriminate | vm_compute; reflexivity]|];
-  split; [vm_compute; reflexivity|];
+  split; [repeat constructor; cbn; try lia; try discriminate|];
+  split; [vm_compute; reflexivity|]; split; [vm_compute; reflexivity|];
   eexists; split; [vm_compute; reflexivity|]; split; [vm_compute; discriminate | vm_compute; reflexivity].
 
 (* /10:foo : the target-name pattern took one character as the namespace index *)
